@@ -107,6 +107,7 @@ struct World {
   char curk = '-'; int curn = 0; bool inStart = false;
   unifex::inplace_stop_source src; int regs = 0;
   long copyCount = 0, copyThrowAt = 0;       // fault injection: k-th Val copy throws
+  long moveCount = 0, moveThrowAt = 0;       // fault injection (ALG_THROWING_MOVE builds): k-th Val move throws
   bool rootDestroysOp = true;
   std::function<void()> destroyOp;
   std::map<int, std::function<void()>> innerStop;   // let_value_with_stop_source: request stop on the handed-out source
@@ -128,7 +129,17 @@ struct Val {
     else if (g_w) { if (!g_w->copyThrowAt) ++g_w->copyCount; }
     Track::born(this, "Val");
   }
+#ifdef ALG_THROWING_MOVE
+  // fault-injection build: the move constructor may throw (k-th move of an execution)
+  Val(Val&& o) noexcept(false) : p(o.p) {
+    if (g_w && g_w->moveThrowAt && ++g_w->moveCount == g_w->moveThrowAt) throw Tagged{{-9001}};
+    else if (g_w) { if (!g_w->moveThrowAt) ++g_w->moveCount; }
+    o.p.clear();
+    Track::born(this, "Val");
+  }
+#else
   Val(Val&& o) noexcept : p(std::move(o.p)) { Track::born(this, "Val"); }
+#endif
   Val& operator=(const Val& o) { p = o.p; return *this; }
   Val& operator=(Val&& o) noexcept { p = std::move(o.p); return *this; }
   ~Val() { Track::died(this, "Val"); }
@@ -362,7 +373,7 @@ struct OpHandle {
   virtual void start() noexcept = 0;
   virtual ~OpHandle() = default;
 };
-struct Traits { int blocking = -1; int sends_done = -1; };
+struct Traits { int blocking = -1; int sends_done = -1; int affine = -1; };
 using Factory = OpHandle* (*)(World&);      // connects the shape's sender to a Recv; may throw Tagged
 
 template <class Make> struct OpImpl final : OpHandle {
@@ -383,6 +394,7 @@ template <class Make, Make make> struct Reg {
     Traits t;
     t.blocking = (int)(unsigned char)static_cast<unifex::_block::_enum>(unifex::sender_traits<S>::blocking);
     t.sends_done = unifex::sender_traits<S>::sends_done ? 1 : 0;
+    t.affine = unifex::sender_traits<S>::is_always_scheduler_affine ? 1 : 0;
     Registry::traits()[id] = t;
   }
 };
